@@ -373,6 +373,15 @@ pub fn run_into_ctx<W: World>(ctx: &mut crate::Ctx, w: &mut W, opts: &Opts, pref
 /// state is untouched whatever `f` does (differential oracles: "what would a reindex / a cold
 /// cache / a restart give from exactly this state?").
 pub fn fork_eval(f: impl FnOnce() -> String) -> Result<String, String> {
+    match fork_eval_code(f)? {
+        (s, 0) => Ok(s),
+        (_, code) => Err(format!("forked evaluation ended abnormally (exit code {code})")),
+    }
+}
+
+/// Like `fork_eval`, but a child that ends through `_exit(code)` on its own (a simulated process
+/// death) is reported as `(whatever it had written, code)` instead of as an error.
+pub fn fork_eval_code(f: impl FnOnce() -> String) -> Result<(String, i32), String> {
     let mut fds = [0i32; 2];
     if unsafe { libc::pipe(fds.as_mut_ptr()) } != 0 {
         return Err("pipe failed".into());
@@ -414,12 +423,101 @@ pub fn fork_eval(f: impl FnOnce() -> String) -> Result<String, String> {
     unsafe { libc::close(fds[0]) };
     let mut status = 0;
     unsafe { libc::waitpid(pid, &mut status, 0) };
-    if !(libc::WIFEXITED(status) && libc::WEXITSTATUS(status) == 0) {
+    if !libc::WIFEXITED(status) {
         return Err(format!("forked evaluation ended abnormally (status {status:#x})"));
     }
     let s = String::from_utf8_lossy(&buf).to_string();
     if s == "\u{1}PANIC" {
         return Err("forked evaluation panicked".into());
     }
-    Ok(s)
+    Ok((s, libc::WEXITSTATUS(status)))
+}
+
+/// Evaluate `f(i)` for every `i in 0..n` in `workers` forked worker processes (item `i` goes to
+/// worker `i % workers`) and return the results in item order. Each worker is a forked copy of
+/// the calling process, so `f` may fork again (`fork_eval`) and may use process-global state.
+/// Must be called while the process is single-threaded.
+pub fn fork_map(workers: usize, n: usize, f: impl Fn(usize) -> String) -> Result<Vec<String>, String> {
+    let workers = workers.max(1).min(n.max(1));
+    let mut kids = Vec::new();
+    for w in 0..workers {
+        let mut fds = [0i32; 2];
+        if unsafe { libc::pipe(fds.as_mut_ptr()) } != 0 {
+            return Err("pipe failed".into());
+        }
+        let pid = unsafe { libc::fork() };
+        if pid < 0 {
+            return Err("fork failed".into());
+        }
+        if pid == 0 {
+            unsafe { libc::close(fds[0]) };
+            let mut i = w;
+            while i < n {
+                let out = match catch_unwind(AssertUnwindSafe(|| f(i))) {
+                    Ok(s) => s,
+                    Err(_) => "\u{1}PANIC".to_string(),
+                };
+                let mut msg = format!("{i} {}\n", out.len()).into_bytes();
+                msg.extend_from_slice(out.as_bytes());
+                let mut off = 0;
+                while off < msg.len() {
+                    let k = unsafe { libc::write(fds[1], msg[off..].as_ptr() as *const libc::c_void, msg.len() - off) };
+                    if k <= 0 {
+                        unsafe { libc::_exit(3) };
+                    }
+                    off += k as usize;
+                }
+                i += workers;
+            }
+            unsafe {
+                libc::close(fds[1]);
+                libc::_exit(0)
+            };
+        }
+        unsafe { libc::close(fds[1]) };
+        kids.push((pid, fds[0]));
+    }
+    // drain every pipe concurrently (a worker blocks once its pipe is full)
+    let mut bufs: Vec<Vec<u8>> = vec![Vec::new(); kids.len()];
+    let mut open: Vec<bool> = vec![true; kids.len()];
+    let mut chunk = [0u8; 65536];
+    while open.iter().any(|o| *o) {
+        let mut pfds: Vec<libc::pollfd> = kids.iter().zip(open.iter()).filter(|(_, o)| **o).map(|((_, fd), _)| libc::pollfd { fd: *fd, events: libc::POLLIN, revents: 0 }).collect();
+        let r = unsafe { libc::poll(pfds.as_mut_ptr(), pfds.len() as libc::nfds_t, -1) };
+        if r < 0 {
+            continue;
+        }
+        for p in pfds.iter().filter(|p| p.revents != 0) {
+            let idx = kids.iter().position(|(_, fd)| *fd == p.fd).unwrap_or(0);
+            let k = unsafe { libc::read(p.fd, chunk.as_mut_ptr() as *mut libc::c_void, chunk.len()) };
+            if k <= 0 {
+                open[idx] = false;
+                unsafe { libc::close(p.fd) };
+            } else {
+                bufs[idx].extend_from_slice(&chunk[..k as usize]);
+            }
+        }
+    }
+    let mut out: Vec<Option<String>> = vec![None; n];
+    for ((pid, _), buf) in kids.iter().zip(bufs.iter()) {
+        let mut status = 0;
+        unsafe { libc::waitpid(*pid, &mut status, 0) };
+        if !(libc::WIFEXITED(status) && libc::WEXITSTATUS(status) == 0) {
+            return Err(format!("a worker process ended abnormally (status {status:#x})"));
+        }
+        let mut pos = 0;
+        while pos < buf.len() {
+            let nl = buf[pos..].iter().position(|b| *b == b'\n').ok_or("worker framing")? + pos;
+            let head = String::from_utf8_lossy(&buf[pos..nl]).to_string();
+            let (i, len) = head.split_once(' ').ok_or("worker framing")?;
+            let (i, len): (usize, usize) = (i.parse().map_err(|_| "worker framing")?, len.parse().map_err(|_| "worker framing")?);
+            let body = String::from_utf8_lossy(&buf[nl + 1..nl + 1 + len]).to_string();
+            if body == "\u{1}PANIC" {
+                return Err(format!("item {i} panicked"));
+            }
+            out[i] = Some(body);
+            pos = nl + 1 + len;
+        }
+    }
+    out.into_iter().enumerate().map(|(i, o)| o.ok_or(format!("no result for item {i}"))).collect()
 }
